@@ -383,9 +383,9 @@ func aggregateRows(selectList sql.SelectList, groupBy []sql.ColumnReference, row
 					panic("avg() param must be a ColumnReference")
 				}
 
-				// update the count of this particular group key + value
-				// combination
-				countKey := fmt.Sprintf("%s%s", key, avgCol)
+				// update the count of this particular group key + select column
+				// combination (the same column may be averaged more than once)
+				countKey := fmt.Sprintf("%s%s#%d", key, avgCol, colIdx)
 				if _, ok := counts[countKey]; !ok {
 					counts[countKey] = 0
 				}
